@@ -289,8 +289,8 @@ class ProgGen:
                     return self.val_expr(ty, e.ast[1] + 1)
                 return e
             a, b = odd_one_out(a), odd_one_out(b)
-            if "core" in self.features and (a.ast[0] == "int" or b.ast[0] == "int"):
-                op = "+"        # multiplication by a literal is compiled by another route (outside Model/BitSem.lean)
+            if "core" in self.features and any(e.ast[0] == "int" and e.ast[1] < 0 for e in (a, b)):
+                op = "+"        # multiplication by a negative literal (sum negated afterwards) is outside Model/BitSem.lean
         return self.binop(op, ty, a, b)
 
     def e_bit(self, ty, d, pure):
@@ -647,7 +647,7 @@ class ProgGen:
             op = self.rng.choice(ops)
             if op in ("<<", ">>"):
                 e = self.val_expr(U8, self.rng.choice([0, 1, 3]))
-            if op == "*" and "core" in self.features and e.ast[0] == "int":
+            if op == "*" and "core" in self.features and e.ast[0] == "int" and e.ast[1] < 0:
                 op = "+"
             cur = ["var", v["name"]]
             for st in path:
